@@ -62,6 +62,12 @@ def build(ctx):
         ctx.teardown()
         ctx.records.clear()
     ctx.new_loop(horizon=cfg.get('horizon', 6))
+    if cfg.get('late_timer'):
+        # one timer of the run (index and lateness are solver-chosen integers named in the configuration) is noticed late
+        li, lk = cfg['late_timer']
+        k_late = int(vals[lk])
+        if k_late > 0:
+            ctx.loop.late_timer = (int(vals[li]), k_late)
     par = set(cfg.get('parallel', []))
     hist = cfg.get('max_history', {})
     plain = set(cfg.get('plain_buses', []))
